@@ -272,3 +272,41 @@ macro_rules! duration_td {
 duration_td!(c02_td_duration_8_4, 0x1b, 8, 0x1a, 4);
 duration_td!(c02_td_duration_8_2, 0x1b, 8, 0x19, 2);
 duration_td!(c02_td_duration_1_4, 0x18, 1, 0x1a, 4);
+
+/// Heap collections: a declared length of up to 2^64-1 (8 symbolic length bytes) followed by two
+/// items: the decoder returns Ok (declared == 2) or Err, never panics (a pre-allocation from the
+/// declared length trips Kani's allocation-size / capacity-overflow check), and the work is
+/// bounded by the input (unwinding assertion), not by the declared length.
+#[cfg(feature = "alloc")]
+pub mod with_alloc {
+    use super::*;
+    use alloc::collections::{BTreeSet, BinaryHeap, LinkedList, VecDeque};
+    use alloc::vec::Vec;
+
+    macro_rules! huge_len {
+        ($name:ident, $t:ty) => {
+            #[kani::proof]
+            #[kani::unwind(6)]
+            pub fn $name() {
+                let a: [u8; 8] = kani::any();
+                let buf = [0x9b, a[0], a[1], a[2], a[3], a[4], a[5], a[6], a[7], 0x01, 0x02];
+                let mut d = Decoder::new(&buf[..]);
+                let r = d.decode::<$t>();
+                let declared = u64::from_be_bytes(a);
+                match &r {
+                    Ok(v) => { assert!(declared <= 2, "more elements than the input holds"); assert!(v.len() as u64 == declared) }
+                    Err(_) => assert!(declared > 2),
+                }
+                assert!(d.position() <= buf.len());
+                kani::cover!(declared == u64::MAX);
+                kani::cover!(r.is_ok());
+                core::mem::forget(r);
+            }
+        };
+    }
+    huge_len!(c02_alloc_vec_declared_len, Vec<u8>);
+    huge_len!(c02_alloc_vecdeque_declared_len, VecDeque<u8>);
+    huge_len!(c02_alloc_binaryheap_declared_len, BinaryHeap<u8>);
+    huge_len!(c02_alloc_linkedlist_declared_len, LinkedList<u8>);
+    // BTreeSet: the B-tree insert code does not finish symex in 10 min (pointer-rich heap): outside the bound
+}
